@@ -101,6 +101,22 @@ FACTS = {
         ('merge_use_last_moves_to_end', 'elementpath/xpath31/_xpath31_functions.py', 'evaluate__map_merge', 'order', "elif duplicates == 'use-last': ;; items.pop(k1) ;; items[k1] = v"),
         ('merge_reject', 'elementpath/xpath31/_xpath31_functions.py', 'evaluate__map_merge', 'order', "elif duplicates == 'reject': ;; raise self.error('FOJS0003')"),
     ],
+    'C07': [
+        ('vc_g_types_unordered', 'elementpath/xpath2/_xpath2_operators.py', 'evaluate__value_comparison_operators', 'order', "if self.symbol not in ('eq', 'ne') and any((isinstance(x, AbstractDateTime) and x.name.startswith('g') for x in operands)): ;; raise self.error('XPTY0004', msg)"),
+        ('vc_same_class', 'elementpath/xpath2/_xpath2_operators.py', 'evaluate__value_comparison_operators', 'order', 'elif cls0 is cls1 and cls0 is not Duration: ;; pass ;; elif all((isinstance(x, float) for x in operands)): ;; pass ;; elif any((isinstance(x, bool) for x in operands)):'),
+        ('vc_numeric_and_strings', 'elementpath/xpath2/_xpath2_operators.py', 'evaluate__value_comparison_operators', 'order', 'elif all((isinstance(x, (int, Decimal)) for x in operands)): ;; pass ;; elif all((isinstance(x, (str, UntypedAtomic, AnyURI)) for x in operands)): ;; pass ;; elif all((isinstance(x, (float, Decimal, int)) for x in operands)):'),
+        ('vc_no_string_vs_qname', 'elementpath/xpath2/_xpath2_operators.py', 'evaluate__value_comparison_operators', 'lacks', '(str, UntypedAtomic, QName)'),
+        ('vc_durations_and_subclasses', 'elementpath/xpath2/_xpath2_operators.py', 'evaluate__value_comparison_operators', 'order', "elif all((isinstance(x, Duration) for x in operands)) and self.symbol in ('eq', 'ne'): ;; pass ;; elif (issubclass(cls0, cls1) or issubclass(cls1, cls0)) and (not issubclass(cls0, Duration)): ;; pass ;; else:"),
+        ('vc_exact_on_doubles', 'elementpath/xpath2/_xpath2_operators.py', 'evaluate__value_comparison_operators', 'lacks', 'numeric_equal'),
+        ('vc_type_error_is_xpty0004', 'elementpath/xpath2/_xpath2_operators.py', 'evaluate__value_comparison_operators', 'order', "return cast(bool, getattr(operator, self.symbol)(*operands)) ;; except TypeError as err: ;; raise self.error('XPTY0004', err)"),
+        ('gc_untyped_rules', 'elementpath/xpath_tokens/base.py', 'XPathToken.iter_comparison_data', 'order', 'if isinstance(op1, UntypedAtomic): ;; if isinstance(op2, UntypedAtomic): ;; yield (op1.value, op2.value) ;; elif not self.is_comparable(op2, op2, ordering): ;; raise TypeError ;; elif isinstance(op2, UntypedAtomic): ;; if not self.is_comparable(op1, op1, ordering): ;; elif not self.is_comparable(op1, op2, ordering): ;; raise TypeError'),
+        ('gc_comparable_bool_numeric_string', 'elementpath/xpath_tokens/base.py', 'XPathToken.is_comparable', 'order', 'if isinstance(op1, bool) or isinstance(op2, bool): ;; return isinstance(op1, bool) and isinstance(op2, bool) ;; elif isinstance(op1, (int, float, decimal.Decimal)): ;; return isinstance(op2, (int, float, decimal.Decimal)) ;; elif isinstance(op1, (str, AnyURI)): ;; return isinstance(op2, (str, AnyURI))'),
+        ('gc_comparable_qname_datetime', 'elementpath/xpath_tokens/base.py', 'XPathToken.is_comparable', 'order', "elif isinstance(op1, AbstractQName): ;; return isinstance(op2, AbstractQName) and (not ordering) ;; elif isinstance(op1, AbstractDateTime): ;; if not isinstance(op1, type(op2)) and (not isinstance(op2, type(op1))): ;; return False ;; return not ordering or not op1.name.startswith('g')"),
+        ('gc_comparable_durations_rest', 'elementpath/xpath_tokens/base.py', 'XPathToken.is_comparable', 'order', 'elif isinstance(op1, Duration): ;; if not isinstance(op2, Duration): ;; return False ;; return not ordering or (type(op1) is type(op2) and type(op1) is not Duration) ;; return type(op1) is type(op2)'),
+        ('gc_type_error_is_xpty0004', 'elementpath/xpath1/_xpath1_operators.py', 'evaluate__comparison_operators', 'order', "return any((op(x1, x2) for x1, x2 in self.iter_comparison_data(context))) ;; elif isinstance(err, TypeError): ;; raise self.error('XPTY0004', err)"),
+        ('ebv_list', 'elementpath/xpath_tokens/base.py', 'XPathToken.boolean_value', 'order', "if not obj: ;; return False ;; elif isinstance(obj[0], XPathNode): ;; return True ;; elif len(obj) > 1: ;; raise self.error('FORG0006', message) ;; obj = obj[0]"),
+        ('ebv_single', 'elementpath/xpath_tokens/base.py', 'XPathToken.boolean_value', 'order', "if isinstance(obj, (int, str, UntypedAtomic, AnyURI)): ;; return bool(obj) ;; elif isinstance(obj, (float, Decimal)): ;; return False if math.isnan(obj) else bool(obj) ;; elif obj is None: ;; return False ;; elif isinstance(obj, XPathNode): ;; return True ;; raise self.error('FORG0006', message)"),
+    ],
     'C09': [
         ('normalize_space_xml_whitespace', 'elementpath/xpath1/_xpath1_functions.py', 'evaluate__normalize_space', 'has', "return ' '.join((x for x in re.split('[ \\t\\n\\r]+', arg) if x))"),
         ('normalize_space_no_unicode_split', 'elementpath/xpath1/_xpath1_functions.py', 'evaluate__normalize_space', 'lacks', '.split()'),
@@ -171,7 +187,7 @@ def generate(pid):
     L = [f'(* GENERATED by harness/shape.py from the AST of /repo: the statements that the hand model of {pid} mirrors. Do not edit. *)',
          'From Coq Require Import Bool.']
     for name, ok, doc in facts:
-        L.append(f'(* {doc} *)')
+        L.append('(* ' + doc.replace('(*', '( *').replace('*)', '* )').replace('"', "'") + ' *)')
         L.append(f'Definition {name} : bool := {"true" if ok else "false"}.')
     L.append('Definition shape_ok : bool :=\n  ' + ' && '.join(n for n, _, _ in facts) + '.')
     core.write_if_changed(os.path.join(core.GEN, f'{pid}Shape.v'), '\n'.join(L) + '\n')
